@@ -8,7 +8,8 @@ plain segment, i.e. a single atomic step here (`refs`).
 
 Threads (`kindOf`):
 * thread 0, the creator: constructs the object (`Mode`: the two constructors, late initialisation through
-  `get_promise()`, `init_if_needed()` + `operator<<`, the ready-made factories), which hands the promise to the
+  `get_promise()` — also with `init_if_needed()` first and copies taken before `get_promise()`, mode `ip` —,
+  `init_if_needed()` + `operator<<`, the ready-made factories), which hands the promise to the
   resolver (`published`) and wires the resolve tracer (`charge`: one CAS on the awaiter slot); then it gives one copy
   of the handle to every handle thread (`constructed`) and runs its own program;
 * handle threads: a program of `copy` / `drop` / `peek` (`ready()` + `value()`) / `await` in the three styles
@@ -49,7 +50,7 @@ inductive Act where
   deriving DecidableEq, Repr, Inhabited
 
 inductive Mode where
-  | pf | ff | gp | ls | sv (v : Nat) | se (c : Nat)
+  | pf | ff | gp | ls | ip | sv (v : Nat) | se (c : Nat)
   deriving DecidableEq, Repr, Inhabited
 
 def Mode.hasPromise : Mode → Bool
@@ -97,6 +98,7 @@ inductive Holder where
 /-- the creator's synchronising operations while it constructs the object -/
 inductive CI where
   | xchgInit              -- `future::get_promise`: exchange on the slot (`instance` -> null)
+  | giveInit              -- `init_if_needed()`, copies handed to the handle threads, then `get_promise()`'s exchange
   | charge (exp : Seen)   -- `resolve_cb::charge`: subscribe CAS of the tracer
   | xchgTmp               -- the promise is moved to where the resolver finds it (claim on the temporary)
   | loadTmp               -- destructor of the moved-from promise; the promise is now published
@@ -173,16 +175,18 @@ def Cfg.script (c : Cfg) : List CI :=
   | Mode.ls => if c.asIsLshift then [CI.xchgTmp, CI.loadTmp]
                else [CI.xchgTmp, CI.loadTmp, CI.loadPending, CI.charge Seen.null]
   | Mode.gp => [CI.xchgInit, CI.charge Seen.null, CI.xchgTmp, CI.loadTmp]
+  | Mode.ip => [CI.giveInit, CI.charge Seen.null, CI.xchgTmp, CI.loadTmp]
   | Mode.sv _ => [CI.loadPending, CI.charge Seen.null]
   | Mode.se _ => [CI.loadPending, CI.charge Seen.null]
 
 /-- with the pinned `init_if_needed` the object stays null: `get_promise()` / `operator<<` dereference null -/
-def Cfg.crashes (c : Cfg) : Bool := c.asIsInit && (c.mode == Mode.gp || c.mode == Mode.ls)
+def Cfg.crashes (c : Cfg) : Bool := c.asIsInit && (c.mode == Mode.gp || c.mode == Mode.ls || c.mode == Mode.ip)
 
 structure State where
   owner : Bool := true
   published : Bool := false
   constructed : Bool := false
+  given : Bool := false                   -- the handle threads' copies exist (they may be made before `get_promise()`, mode ip)
   slot : Slot := Slot.chain []
   payload : Outcome := Outcome.none
   flag : Nat → Bool := fun _ => false
@@ -348,17 +352,24 @@ def runActs (c : Cfg) (t : Nat) : State → List WAct → State × List Ev
 /-- the handle threads (they receive their copy from the creator) -/
 def handleTids (c : Cfg) : List Nat := (List.range c.n).filter (fun i => kindOf c i = Kind.handle)
 
-/-- end of the construction: one copy of the handle for every handle thread -/
-def distribute (c : Cfg) (s : State) : State :=
+/-- one copy of the handle for every handle thread -/
+def giveHandles (c : Cfg) (s : State) : State :=
   { touch s with
-    constructed := true,
+    given := true,
     held := fun i => if i < c.n ∧ kindOf c i = Kind.handle then 1 else s.held i,
     refs := s.refs + (handleTids c).length,
     holders := (handleTids c).map Holder.thread ++ s.holders }
 
+/-- end of the construction: the handle threads have their copies (made now, unless they were made before
+`get_promise()`) and may start -/
+def distribute (c : Cfg) (s : State) : State :=
+  if s.given then { s with constructed := true } else { giveHandles c s with constructed := true }
+
 /-- one synchronising operation of the constructing creator -/
-def cstep (s : State) (t : Nat) (i : CI) (is : List CI) : State × List Ev :=
+def cstep (c : Cfg) (s : State) (t : Nat) (i : CI) (is : List CI) : State × List Ev :=
   match i with
+  | CI.giveInit =>
+      (setPc (if s.given then touch s else giveHandles c s) t (Pc.cRun is), [Ev.dflt, Ev.opXchgInit t])
   | CI.xchgInit => (setPc (touch s) t (Pc.cRun is), [Ev.dflt, Ev.opXchgInit t])
   | CI.xchgTmp => (setPc s t (Pc.cRun is), [Ev.opXchgTmp t])
   | CI.loadTmp => ({ setPc s t (Pc.cRun is) with published := true }, [Ev.opLoadTmp t])
@@ -407,7 +418,7 @@ def astep (c : Cfg) (s : State) (t : Nat) : State × List Ev :=
   | Pc.done => (s, [])
   | Pc.cRun [] => runProg t (setPc (distribute c s) t (Pc.hRun (c.prog t))) (c.prog t)
   | Pc.cRun (i :: is) =>
-      if c.crashes then ({ s with crashed := true }, [Ev.crash t]) else cstep s t i is
+      if c.crashes then ({ s with crashed := true }, [Ev.crash t]) else cstep c s t i is
   | Pc.hStart =>
       if s.constructed then runProg t (setPc s t (Pc.hRun (c.prog t))) (c.prog t)
       else (setPc s t Pc.hGate, [Ev.gateBlock t false])
